@@ -176,3 +176,33 @@ def traced_reduce(e, bound: int = 1000):
                 ev = "flag"
             evs.append(f"{ev}:{wire.size(cur)}")
         return evs, cur, True, log.unknown
+
+
+def unknown_reducer_hints() -> list[tuple]:
+    """for every reducer the model does not know: (its class, the constructor names its source text mentions, the
+    integer literals in it) - read from the source of the method and of the helpers it calls on `self`; this only
+    *aims* the search for a failing input, it decides nothing"""
+    import inspect
+    import re
+    out = []
+    for n in X.__all__:
+        cls = getattr(X, n)
+        for name, fn in list(cls.__dict__.items()):
+            if not (name.startswith("_reduce_") and (cls.__name__, name) not in RULE_OF):
+                continue
+            try:
+                text = (inspect.getcomments(fn) or "") + inspect.getsource(fn)
+                for helper in set(re.findall(r"\b(_[a-z]\w+)\(", text)):
+                    h = getattr(cls, helper, None) or getattr(fn, "__globals__", {}).get(helper)
+                    if h is not None and callable(h) and h is not fn:
+                        try:
+                            text += (inspect.getcomments(h) or "") + inspect.getsource(h)
+                        except (OSError, TypeError):
+                            pass
+            except (OSError, TypeError):
+                text = ""
+            mentioned = sorted({m for m in re.findall(r"\b([A-Z][A-Za-z]+)\b", text) if m in X.__all__ and m not in ("Variable", "Constant")})
+            ints = sorted({int(m) for m in re.findall(r"(?<![\w.])(\d{1,3})(?![\w.])", text)})
+            out.append((cls.__name__, mentioned, ints))
+    return out
+
